@@ -614,8 +614,8 @@ def programs_c06():
 
 def programs_free():
     """Programs for the uncontrolled (free-running) executions, inline and through the gRPC client, with contents of up
-    to 150 000 bytes. They avoid what the recorded findings need (no snapshot Begin, no collector, no rollback), so that
-    an unexplained history is never one of those."""
+    to 150 000 bytes. While defects were recorded as known findings they avoided what those need; with all of them
+    repaired the last programs bring snapshot transactions, the collector and rollbacks in."""
     progs = []
 
     def add(name, setup, actors):
@@ -647,6 +647,18 @@ def programs_free():
          ("C", [O("begin", 5, l="RC"), O("set", 5, "k2", 46), O("get", 5, "k2"), O("rollback", 5), O("begin", 6, l="RC"), O("set", 6, "k2", 47), O("get", 6, "k2"), O("rollback", 6)]),
          ("D", [O("get", 0, "k1"), O("get", 0, "k2")]),
          ("E", [O("churn", c=150)]), ("F", [O("churn", c=150)])])
+    if not [f for f in vlib.known_findings().get("findings", []) if f.get("schedule")]:
+        for lvl in ("RR", "SER"):
+            add("snapshot_commit_gc_%s" % lvl, [O("set", 0, "k1", 3), O("set", 0, "k2", 4)],
+                [("A", [O("begin", 1, l="RC"), O("set", 1, "k1", 52), O("set", 1, "k2", 53), O("commit", 1)]),
+                 ("R", [O("begin", 2, l=lvl), O("get", 2, "k1"), O("get", 2, "k2"), O("get", 2, "k1"), O("get", 2, "k2"), O("commit", 2)]),
+                 ("W", [O("set", 0, "k1", 58), O("get", 0, "k1")]),
+                 ("G", [O("gc"), O("gc")])])
+        add("ru_vs_rollback_gc", [O("set", 0, "k1", 3)],
+            [("A", [O("begin", 1, l="RC"), O("set", 1, "k1", 64), O("rollback", 1)]),
+             ("B", [O("begin", 2, l="RU"), O("get", 2, "k1"), O("get", 2, "k1"), O("commit", 2)]),
+             ("C", [O("set", 0, "k1", 70), O("get", 0, "k1"), O("keys", 0)]),
+             ("G", [O("gc")])])
     add("delete_recreate", [O("set", 0, "k1", 5), O("set", 0, "k2", 2)],
         [("A", [O("del", 0, "k1"), O("set", 0, "k1", 34)]), ("B", [O("get", 0, "k1"), O("keys", 0), O("get", 0, "k1")]),
          ("C", [O("del", 0, "k2"), O("keys", 0)]), ("D", [O("get", 0, "k2"), O("get", 0, "k1")])])
@@ -956,6 +968,7 @@ def l2_stage(chk, name, consts, sample=60):
 
 L2_BASE = dict(Keys={1, 2}, WS1=set(), WS2=set(), L1="RC", L2="RR", WithR=False, WithW=False, WithA=False, WithG=False, WKey=1, OldVersions=1,
                RangeDraw=bool([f for f in vlib.known_findings().get("fixed", []) if f.get("signature") == "begin-between-commit-draws"]),
+               ContentGuard=bool([f for f in vlib.known_findings().get("fixed", []) if f.get("signature") == "get-overtaken-by-cleanup"]),
                HorizonLock=bool([f for f in vlib.known_findings().get("fixed", []) if f.get("signature") == "begin-unregistered-during-gc"]))
 
 
@@ -984,7 +997,8 @@ def c08(chk):
         tlaps_proof(chk, "proofs/SnapshotProof.tla", guard=("  /\\ sst[s] = \"open\" /\\ lock = \"free\"", "  /\\ sst[s] = \"open\""))
     l2_stage(chk, "begin_vs_commit", dict(L2_BASE, WS1={1, 2}, WithR=True))
     l2_stage(chk, "begin_vs_gc", dict(L2_BASE, WithR=True, WithW=True, WithG=True, OldVersions=2))
-    conc_check(chk, programs_c08(), 60 if quick else 800, 12 if quick else 150, 2 if quick else 3)
+    conc_check(chk, programs_c08(), 60 if quick else 800, 12 if quick else 150, 2 if quick else 3,
+               free=([p for p in programs_free() if "snapshot" in p["name"]], 12 if quick else 300))
 
 
 def rw_variant():
